@@ -49,6 +49,14 @@ theorem worker_input_buffer_is_needed :
       (LTS.Worker.noDeadlock { LTS.Worker.feat with capIn := 0 }) = false :=
   LTS.Worker.deadlock_with_unbuffered_input
 
+/-- the plain, blocking hand-off of a worker's result is what `worker_group_no_deadlock_no_leak`
+rests on besides the buffer: a hand-off that gives up on cancellation without closing `output`
+strands the consumer inside `GetOutput` -/
+theorem worker_handoff_must_not_give_up :
+    (LTS.Worker.explored { LTS.Worker.feat with sendGivesUp := true }).all
+      (LTS.Worker.noDeadlock { LTS.Worker.feat with sendGivesUp := true }) = false :=
+  LTS.Worker.deadlock_when_the_handoff_gives_up
+
 /-- **the fork-join of the coalesce operator never gets stuck** (`Next` and `loadSeries`: one
 goroutine per child, failures reported through `errChan`, `wg.Wait()` in the parent): three
 children, each free to succeed or to fail with an error or a panic, every interleaving - a state
